@@ -211,8 +211,23 @@ class Bus:
                 pr["fetchOnly"] = True
         if self.o["timeouts"] and rng.random() < 0.3:
             pr["timeout"] = rng.choice([0.5, 1, 2.5, 10, 10, 4294967296.5])       # (the last: whole seconds above 32 bits)
+        if "value" in pr:
+            self.maybe_fill_message(c, "add", pr)
         self.note("add", c.name, pr)
         S.request(c, "add", pr, chunks=pick_chunks(rng))
+
+    def maybe_fill_message(self, c, method, pr):
+        """now and then the value is a string that makes the request (almost) as long as a message may be: what the daemon sends on
+        because of it (notifications with a fetch id and an event name, forwarded requests with a longer id) is longer than that"""
+        S = self.S
+        if (S.seed + S.valc + S.idc) % 17:
+            return
+        limit = S.max_msg if c.transport != "ws" else S.max_msg - 14
+        room = limit - len(json.dumps({"id": 99999999, "method": method, "params": dict(pr, value="")}))
+        if room > 10:
+            S.valc += 1
+            pr["value"] = "f%d" % S.valc + "i" * (room - len("f%d" % S.valc) - (S.valc % 4) * 5)
+            S.sig("message-filled-to-the-limit", method, (S.valc % 4) * 5)
 
     def op_remove(self):
         S, rng = self.S, self.rng
@@ -250,6 +265,7 @@ class Bus:
         if e is not None and e.is_state and rng.random() < 0.25:
             pr["value"] = self.near_same(e.value)
             S.sig("change-to-near-same-value", type(e.value).__name__)
+        self.maybe_fill_message(c, "change", pr)
         self.note("change", c.name, pr)
         S.request(c, "change", pr, chunks=pick_chunks(rng))
 
@@ -339,7 +355,18 @@ class Bus:
                 # longer than anything the caller itself may send
                 room = (S.max_msg if c.transport != "ws" else S.max_msg - 14) - len(json.dumps({"id": idv, "method": m, "params": pr})) - 2
                 if room > 20:
-                    idv = idv + "L" * rng.choice([room, room - 1, room // 2, max(1, room - 90)])
+                    pad = ("L" * rng.choice([room, room - 1, room // 2, max(1, room - 90), 61, 70]))[:room]
+                    # the part that tells two long ids apart at the front or at the very end (a copy that is cut off somewhere keeps
+                    # only one of the two kinds apart)
+                    idv = idv + pad if (S.seed + S.idc) % 2 else pad + idv
+            elif r < self.o["id_less"] + 0.09 and self.o.get("odd_ids", True):
+                # ids that are as short or as odd as JSON-RPC allows: "", " ", "0", 0, -1, 1.5 (one of a kind per connection at a time)
+                for cand in ("", " ", "0", 0, -1, 1.5, "null"):
+                    from .model import id_key
+                    if id_key(cand) not in c.pending and id_key(cand) not in c.done and (S.seed + S.idc + len(str(cand))) % 3 != 0:
+                        idv = cand
+                        S.sig("odd-id-routed", repr(cand))
+                        break
         self.note(m, c.name, pr, "no-id" if idv is None else "")
         S.request(c, m, pr, idv=idv, chunks=pick_chunks(rng))
 
@@ -409,6 +436,8 @@ class Bus:
             # last words: a request directly followed by the end of the stream, both waiting when the daemon looks (one readiness
             # event may carry both): the request is still carried out and answered - the client only stopped SENDING
             self.settle()
+            if not c.alive() or c.pending:
+                return
             own = [e for e in self.own_elems(c) if e.is_state]
             if own and (S.seed + S.stats["end_eof"]) % 2:
                 lw = S.request(c, "change", {"path": own[0].path, "value": S.next_val(c)})
